@@ -138,6 +138,26 @@ partial def loop (h : IO.FS.Stream) (out : IO.FS.Stream) (r : Rep) : IO Unit := 
     if r.rb ≠ 3 ∨ r.qDead then do out.putStrLn "inadmissible"; loop h out r else
     let (r', o) := r.step (.snap n true)
     out.putStrLn (showOut o); loop h out r'
+  | ["cleaner", ck, mode, picked] =>
+    -- one tick of sync.Task.InternalSnapshotCleaner: the checkpoint is recorded, the cleaner picks one
+    -- candidate (the smallest file — which one is the harness's observation, checked here to be a legal
+    -- candidate), PrepareRemoveDisk marks it, the fold merges it into its parent and RemoveDiffDisk
+    -- unlinks it; when the fold fails nothing but the mark happens.  The replica is reopened afterwards.
+    if !r.isOpen ∨ r.mode ≠ .rw ∨ r.rb ≠ 0 then do out.putStrLn "refused"; loop h out r else
+    let r1 := (r.step (.setCkpt ("volume-snap-" ++ ck ++ ".img"))).1
+    let cands := (r.dd.candidates (r.indexOf ck)).map fun k => r.names.getD (k - 1) "?"
+    let finish := fun (x : Rep) => ((x.step (.reopen true)).1.step (.setMode .rw)).1
+    if picked = "-" then
+      -- nothing observable changed: no candidate, or the fold failed on a candidate that had been
+      -- marked removed before (the mark is all that happens then)
+      if cands.isEmpty ∨ (mode = "fault" ∧ cands.any fun n => r.dd.rm (r.indexOf n)) then
+        do out.putStrLn "cleaner picked=-"; loop h out (finish r1)
+      else do out.putStrLn ("cleaner picked-one-of=" ++ ",".intercalate (sortStrings cands)); loop h out (finish r1)
+    else if !cands.contains picked then do out.putStrLn ("cleaner not-a-candidate " ++ picked); loop h out (finish r1)
+    else
+      let r2 := (r1.step (.mark picked)).1
+      let r3 := if mode = "fault" then r2 else ((r2.step (.coal picked)).1.step (.rm picked)).1
+      do out.putStrLn ("cleaner picked=" ++ picked); loop h out (finish r3)
   | ["full"] =>
     let (r', o) := r.step (.read 0 (r.dd.nb * r.dd.bs))
     out.putStrLn (showOut o); loop h out r'
